@@ -2,7 +2,7 @@
    Gen/FileManager.v of generator/file_manager.go.  This file holds statements only;
    every proof is [exact lemma] and is followed by Print Assumptions. *)
 From Coq Require Import List Arith Bool.
-From Verif Require Import Base.Bytes Gen.FileManager Gen.FileManagerFacts Gen.FileManagerTerm Corr.C12 Gen.FileManagerSpec.
+From Verif Require Import Base.Bytes Gen.FileManager Gen.FileManagerFacts Gen.FileManagerTerm Corr.C12 Gen.FileManagerSpec Gen.FileManagerText.
 Import ListNotations.
 
 (* Every history of Feed calls (any number of calls, any items): the assembled output never
@@ -104,6 +104,23 @@ Theorem C12_model_satisfies_bookkeeping :
   forall h outs, run h = Ok outs -> bookkeeping (file_items h) outs [] = true.
 Proof. exact model_satisfies_bookkeeping. Qed.
 Print Assumptions C12_model_satisfies_bookkeeping.
+
+(* Text level, for every history without patch items (every item is a named file): the response
+   is the list of kept files, each with its submitted text minus exactly the insertion-point
+   markers (`strip_markers`, the declarative scanner of the check's oracle 6) — the regexp scan,
+   the replacer's key set and the generic replacer agree with it at every position. *)
+Theorem C12_no_patch_history_texts :
+  forall h m, forallb no_patch_items h = true -> feeds fm0 h = Ok m ->
+  build m = map (fun f => (fst f, strip_markers 0 (snd f))) (files m).
+Proof. exact no_patch_history_texts. Qed.
+Print Assumptions C12_no_patch_history_texts.
+
+(* and for any history, a file that received no patch is written with its markers stripped *)
+Theorem C12_unpatched_file_text :
+  forall m name content, patches_of m name = [] ->
+  build_one m (name, content) = (name, strip_markers 0 content).
+Proof. exact build_one_no_patches. Qed.
+Print Assumptions C12_unpatched_file_text.
 
 (* Termination: for every history the model never exhausts the fuel it gives to the rename walk
    (the Go `for {}` loop) or to the item loop — the walk over own siblings ends, and among the
